@@ -23,6 +23,8 @@ BIN = os.path.join(runner.STUBS, 'bin')
 
 PATHS = ['src/main.rs', 'a.py', 'lib/util-x.c', 'src/co-7-fig.rs', 'x/y.z/w.js', 'doc/read me.md', 'etc/META-INF/foo.properties',
          'v1.2/a_b.go', 'Makefile', 'dir-1/sub_2/file.name.txt', 'ünï/cödé.rs', 'LICENSE', 'build.gradle.kts']
+# coloured output and rg --json mark the path: anything may be in it
+HOSTILE_PATHS = ['x-12-y.c', 'a:b.rs', 'k=v.conf', './rel/p.rs', '../up.rs', '/abs/path.py', 'we ird:12:name.txt', 'dir/file:10:fn main.rs', 'Make-7-file', 'a.b-c=d:e']
 LOOKALIKE = re.compile(r'[\w-]+\.\w+[:=-]\d+[:=-]')
 PATH_WITH_EXT = re.compile(r'^[^:| ][^:]*[^ :]\.[^. :=-]{1,10}$')    # what delta's numbered-line pattern takes for a path
 EXT_THEN_SEP = re.compile(r'[^ ]\.[^. :=-]{1,10}[:=-]')
@@ -37,7 +39,7 @@ def gen_model(rng, fmt, headers=False):
     files = []
     used = set()
     for _ in range(rng.randint(1, 3)):
-        p = rng.choice(PATHS)
+        p = rng.choice(PATHS + (HOSTILE_PATHS if not fmt.startswith('plain') else []))
         if p in used:
             continue
         if fmt.startswith('plain') and ('.' not in os.path.basename(p)) and any(c in p for c in ':-='):
@@ -50,6 +52,10 @@ def gen_model(rng, fmt, headers=False):
             ln += rng.choice([1, 1, 1, 2, 5, 40])
             while True:
                 code = gen.rand_text(rng, 60, allow_empty=False, unicode_ok=True, tabs_ok=False)
+                if not fmt.startswith('plain') and rng.random() < 0.06:
+                    # code that itself looks like a grep line (the tool's markup says it is code)
+                    code = rng.choice(['src/x.rs:12: looks like a hit', 'a.py-3-ctx', 'file.c=7=hdr', '-- not a separator', 'Binary file x matches',
+                                       'lib/util-x.c:10:nested:11:again', '{"type":"match"}']) + ' ' + code[:10]
                 if rng.random() < 0.04:
                     # "x.word" directly followed by a separator: make rules, attribute updates
                     code = rng.choice(['foo.o: foo.c', 'self.count-=1', 'CFLAGS.debug=-g', 'if x.y: pass', 'a.b-c']) + ' ' + code[:20]
